@@ -221,7 +221,9 @@ def run(ctx):
     ev.cov["distinct_nontrivial"] = len({(r_.get("combo"), r_.get("block"), r_["kind"], r_.get("mode"), r_.get("days"), r_.get("item"), r_.get("raw")) for r_ in recs})
     ev.cov["rule"] = "one record per (combination, block) facade with all members evaluated, plus water-care / reminder / enum value records"
     ev.cov["exhaustive"] = False
-    ev.sample(next(r_ for r_ in recs if r_["kind"] == "facade" and r_["built"]))
-    ev.sample(next(r_ for r_ in recs if r_["kind"] == "wc" and r_["mode"] == 7))
+    for smp in (next((r_ for r_ in recs if r_["kind"] == "facade" and r_["built"]), None),
+                next((r_ for r_ in recs if r_["kind"] == "wc" and r_["mode"] == 7), None)):
+        if smp is not None:
+            ev.sample(smp)
     ev.assumptions += ["read-only members are discovered by reflection (public properties, str, repr, monitor, lookups)",
                        "the spa is mocked as in tests/test_snapshots.py (real structure and accessors, no connection)"]
